@@ -784,9 +784,9 @@ class WCS(GWCSAPIMixin):
             argsi = args
 
             if nargs == 2 and self._approx_inverse is not None:
+                # a non-finite initial guess is handled (and reported) by the
+                # solver exactly as for array input
                 x0 = self._approx_inverse(*argsi)
-                if not np.all(np.isfinite(x0)):
-                    return [np.array(np.nan) for _ in range(nargs)]
 
             result = tuple(self._vectorized_fixed_point(
                 x0, argsi,
